@@ -1,4 +1,44 @@
-(* PC11.v — property C11 (placeholder while the proofs are being built) *)
-From SV Require Import NNM.
-Theorem C11_placeholder : True. Proof. exact I. Qed.
-Print Assumptions C11_placeholder.
+(* PC11.v — property C11: reported p-values are well-formed and the overall value matches the history.
+   Only statements, each closed by `exact`, with Print Assumptions.  Model: NNM.v (mirrors NonnegMean.py). *)
+From SV Require Import NNM NNM_ranges NNM_hist NNM_wf.
+Open Scope Q_scope.
+
+(* `wellformed r n`: history has n entries, every entry and the overall value are rationals in [0,1] (so never NaN,
+   never negative), the overall value is one of the entries and no entry is smaller (= the smallest entry). *)
+
+(* ALPHA with ANY of the shipped estimators (the truncation of eta_j to [mu_j,u] in alpha_mart makes this hold
+   whatever the estimator returns), finite or infinite N, every non-empty sample in [0,u] no longer than N *)
+Theorem C11_alpha : forall sqrtq e N t u xs,
+  0 < u -> 0 < t < u -> sample_ok N u xs ->
+  wellformed (alpha_mart sqrtq e N t u xs) (length xs).
+Proof. exact alpha_mart_wellformed. Qed.
+Print Assumptions C11_alpha.
+
+(* betting martingale with the shipped bets inside their documented ranges (fixed bet 0<=lam<=1/u; aGRAPA with
+   0 < c0 <= cmax < 1, growth >= 0); sqrt is any function with nonnegative values *)
+Theorem C11_betting : forall sqrtq, (forall x, 0 <= sqrtq x) -> forall b N t u xs,
+  0 < u -> 0 < t < u -> bet_ok b u -> sample_ok N u xs ->
+  wellformed (betting_mart sqrtq b N t u xs) (length xs).
+Proof. exact betting_mart_wellformed. Qed.
+Print Assumptions C11_betting.
+
+(* generalised Wald SPRT: random_order -> smallest entry; otherwise the last entry *)
+Theorem C11_sprt : forall sqrtq eta N t u xs,
+  0 < u -> 0 < t < u -> sample_ok N u xs ->
+  wellformed (wald_sprt sqrtq eta true N t u xs) (length xs)
+  /\ (let r := wald_sprt sqrtq eta false N t u xs in
+      length (snd r) = length xs /\ Forall unit_x (snd r) /\ fst r = last (snd r) NaN /\ unit_x (fst r)).
+Proof. exact wald_sprt_wellformed. Qed.
+Print Assumptions C11_sprt.
+
+(* non-vacuity: a concrete configuration meets the hypotheses, and the boundary case m_j = 0 -> NaN product is covered *)
+Example C11_hyps_satisfiable :
+  sample_ok (Some 4%Z) 1 [1; 1; 0; 0] /\ 0 < (1#2) < 1 /\ bet_ok (BFixed (1#2)) 1
+  /\ snd (alpha_mart sqrt_exec (EFixed (3#4)) (Some 4%Z) (1#2) 1 [1; 1; 0; 0]) = [Fin (2#3); Fin (1#3); Fin 1; Fin 1].
+Proof.
+  split; [|split; [|split]].
+  - split; [discriminate|]. split; [|simpl; lia]. repeat constructor; unfold Qle; simpl; lia.
+  - split; reflexivity.
+  - simpl. split; unfold Qle; simpl; lia.
+  - vm_compute. reflexivity.
+Qed.
